@@ -7,7 +7,10 @@ Exact arithmetic (`Int` timestamps of any size, entry lists of any length).  No 
 entries that `eraseRegion` deletes are members of the tier, and `deleteEntry` (exact match first) removes exactly
 the member it is given, however close other entries are (`deleteIvs_of_mem`).
 The floating-point clause of the property is carried by layer R at the end of this file plus the bit-exact
-correspondence run.
+correspondence run.  Since fix A28 shrinking cuts out only the part of the region inside the span: `erase_unfold_clip`
+(the code path for ANY region), `erase_shrink_clip` / `erase_shrink_outside` (a region sticking out of the span acts as
+its clipped part; one that meets the span in at most one time erases nothing), `erase_shrink_any`, `erase_wf_any`; for a
+region inside the span clipping is the identity (`clip_in`) and the in-span theorems read as before.
 -/
 namespace C07
 
@@ -23,24 +26,72 @@ theorem perase_rejects (t : PTier Int) (hwf : t.WF) (a b : Int) (sh : Bool) (h :
   rw [h1]
   simp [bind, Except.bind, C06.pcrop_rejects t' a b false h]
 
-/-- the lax match list of the code is the list of entries overlapping the region with positive length -/
-theorem erase_unfold (t : ITier Int) (hwf : t.WF) (a b : Int) (hab : a < b) (m : EraseMode) (sh : Bool) :
+/-! ### the clipping step (fix A28): when shrinking, only the part of the region inside the span is cut out -/
+
+theorem clip_true (lo hi a b : Int) : clipLo true lo a = max a lo ∧ clipHi true hi b = min b hi := by
+  simp only [clipLo, clipHi, if_true, pyMax2, pyMin2]
+  constructor <;> split <;> omega
+
+/-- clipping is the identity when not shrinking, and for a region inside the span -/
+theorem clip_in (sh : Bool) (lo hi a b : Int) (hin : sh = true → lo ≤ a ∧ b ≤ hi) :
+    clipLo sh lo a = a ∧ clipHi sh hi b = b := by
+  cases sh with
+  | false => exact ⟨rfl, rfl⟩
+  | true =>
+    obtain ⟨h1, h2⟩ := hin rfl
+    obtain ⟨e1, e2⟩ := clip_true lo hi a b
+    rw [e1, e2]
+    constructor <;> omega
+
+/-- the code path in closed form, ANY region `a < b`: the lax match list (taken with the region as given) is the list of
+entries overlapping the region; the body works on the clipped region; an empty clipped region returns an unchanged copy -/
+theorem erase_unfold_clip (t : ITier Int) (hwf : t.WF) (a b : Int) (hab : a < b) (m : EraseMode) (sh : Bool) :
     t.eraseRegion a b m sh =
-      (do let nt1 ← eraseCore t (t.es.filter (ov a b)) a b m
-          if sh then shrinkStep nt1 a b else pure nt1) := by
+      (if sh = true ∧ clipHi sh t.hi b ≤ clipLo sh t.lo a then .ok t
+       else do
+        let nt1 ← eraseCore t (t.es.filter (ov a b)) (clipLo sh t.lo a) (clipHi sh t.hi b) m
+        if sh then shrinkStep nt1 (clipLo sh t.lo a) (clipHi sh t.hi b) else pure nt1) := by
   obtain ⟨mt, hc, _, _, hmt, _, _⟩ := C06.crop_norebase t hwf a b hab .lax
   unfold ITier.eraseRegion
   rw [hc, new_of_wf t hwf]
   simp only [bind, Except.bind]
   rw [hmt, getIvs_lax_eq_filter a b hab t.es hwf.pos]
+  by_cases h : sh = true ∧ clipHi sh t.hi b ≤ clipLo sh t.lo a
+  · rw [if_pos h]
+    obtain ⟨rfl, h2⟩ := h
+    have h' : (true && decide (clipHi true t.hi b ≤ clipLo true t.lo a)) = true := by simpa using h2
+    simp only [h', if_true, pure, Except.pure]
+  · rw [if_neg h]
+    have h' : (sh && decide (clipHi sh t.hi b ≤ clipLo sh t.lo a)) = false := by
+      cases sh with
+      | false => rfl
+      | true => simpa using h
+    simp only [h', Bool.false_eq_true, if_false]
+
+/-- … and with the region as given when not shrinking or when the region lies inside the span -/
+theorem erase_unfold (t : ITier Int) (hwf : t.WF) (a b : Int) (hab : a < b) (m : EraseMode) (sh : Bool)
+    (hin : sh = true → t.lo ≤ a ∧ b ≤ t.hi) :
+    t.eraseRegion a b m sh =
+      (do let nt1 ← eraseCore t (t.es.filter (ov a b)) a b m
+          if sh then shrinkStep nt1 a b else pure nt1) := by
+  rw [erase_unfold_clip t hwf a b hab m sh]
+  obtain ⟨e1, e2⟩ := clip_in sh t.lo t.hi a b hin
+  rw [e1, e2, if_neg (by intro h; omega)]
 
 /-- 'error' mode: `CollisionError` exactly when some interval overlaps the region -/
 theorem erase_error_mode (t : ITier Int) (hwf : t.WF) (a b : Int) (hab : a < b) (sh : Bool) :
     ((∃ iv ∈ t.es, iv.s < b ∧ a < iv.e) → t.eraseRegion a b .error sh = .error .CollisionError) ∧
     ((∀ iv ∈ t.es, ¬ (iv.s < b ∧ a < iv.e)) → t.eraseRegion a b .error false = .ok t) := by
-  rw [erase_unfold t hwf a b hab .error sh, erase_unfold t hwf a b hab .error false]
   constructor
   · rintro ⟨iv, hiv, ho⟩
+    rw [erase_unfold_clip t hwf a b hab .error sh]
+    have hnc : ¬ (sh = true ∧ clipHi sh t.hi b ≤ clipLo sh t.lo a) := by
+      rintro ⟨rfl, hle⟩
+      obtain ⟨e1, e2⟩ := clip_true t.lo t.hi a b
+      rw [e1, e2] at hle
+      have := hwf.pos iv hiv; have := hwf.inLo iv hiv; have := hwf.inHi iv hiv
+      omega
+    rw [if_neg hnc]
     have hm : iv ∈ t.es.filter (ov a b) := List.mem_filter.2 ⟨hiv, by simp [ov, ho]⟩
     cases hf : t.es.filter (ov a b) with
     | nil => rw [hf] at hm; simp at hm
@@ -48,6 +99,7 @@ theorem erase_error_mode (t : ITier Int) (hwf : t.WF) (a b : Int) (hab : a < b) 
       obtain ⟨g, hg⟩ : ∃ g, (y :: ys).getLast? = some g := ⟨_, List.getLast?_eq_some_getLast (by simp)⟩
       simp [eraseCore, hg, bind, Except.bind, throw, throwThe, MonadExceptOf.throw]
   · intro hno
+    rw [erase_unfold t hwf a b hab .error false (by simp)]
     have hf : t.es.filter (ov a b) = [] := by
       apply List.filter_eq_nil_iff.2
       intro iv hiv; have := hno iv hiv; simp [ov]; omega
@@ -60,7 +112,7 @@ theorem erase_noshrink (t : ITier Int) (hwf : t.WF) (a b : Int) (hab : a < b)
     ∃ t', t.eraseRegion a b mode false = .ok t' ∧ IsErased a b mode t t' := by
   obtain ⟨t', h1, h2⟩ := eraseCore_spec t hwf a b hab mode hm
   refine ⟨t', ?_, h2⟩
-  rw [erase_unfold t hwf a b hab mode false, h1]
+  rw [erase_unfold t hwf a b hab mode false (by simp), h1]
   rfl
 
 /-- the label-at-time function of an erased tier (pieces characterisation, truncate mode) -/
@@ -190,7 +242,7 @@ theorem erase_shrink (t : ITier Int) (hwf : t.WF) (a b : Int) (hab : a < b)
     have := (hmapb w2 hw2).2
     omega
   refine ⟨u, t', h2, ?_, e2, ?_, ?_, ?_, e3, ?_⟩
-  · rw [erase_unfold t hwf a b hab mode true, h1]
+  · rw [erase_unfold t hwf a b hab mode true (fun _ => ⟨hlo, hhi⟩), h1]
     simp only [bind, Except.bind, if_true, shrinkStep, ITier.new, Option.getD_some, Option.getD_none]
     rw [shrinkIvs_eq_map a b u.es hclear]
     exact e1
@@ -243,6 +295,83 @@ theorem erase_shrink_straddler (t : ITier Int) (hwf : t.WF) (a b : Int) (hab : a
   have := rejoin_fuses a (u.es.map (shOne a b)) hw.1 hw.2.1 ⟨iv.s, a, iv.l⟩ ⟨a, iv.e - (b - a), iv.l⟩
     (by rw [← hL']; exact List.mem_map_of_mem hL) (by rw [← hR']; exact List.mem_map_of_mem hR) rfl rfl rfl
   rw [hes]; exact this
+
+/-! ## shrinking with a region that sticks out of the span (fix A28): only the part inside the span is cut out -/
+
+/-- **a region that meets the span in at most one time** (`min b hi ≤ max a lo`: wholly before, wholly after, or touching
+an end): shrinking erases nothing — every mode, `error` included, returns an unchanged copy -/
+theorem erase_shrink_outside (t : ITier Int) (hwf : t.WF) (a b : Int) (hab : a < b) (m : EraseMode)
+    (hout : min b t.hi ≤ max a t.lo) : t.eraseRegion a b m true = .ok t := by
+  rw [erase_unfold_clip t hwf a b hab m true]
+  obtain ⟨e1, e2⟩ := clip_true t.lo t.hi a b
+  rw [e1, e2, if_pos ⟨rfl, hout⟩]
+
+/-- **erase_shrink_clip**: for ANY region `a < b` whose part inside the span is not empty, shrinking it out is shrinking
+its clipped part `[max a lo, min b hi]` out (the match list, taken with the region as given, is the match list of the
+clipped region: every entry lies inside the span) -/
+theorem erase_shrink_clip (t : ITier Int) (hwf : t.WF) (a b : Int) (hab : a < b) (m : EraseMode)
+    (hne : max a t.lo < min b t.hi) :
+    t.eraseRegion a b m true = t.eraseRegion (max a t.lo) (min b t.hi) m true := by
+  rw [erase_unfold_clip t hwf a b hab m true, erase_unfold_clip t hwf _ _ hne m true]
+  obtain ⟨e1, e2⟩ := clip_true t.lo t.hi a b
+  obtain ⟨e3, e4⟩ := clip_true t.lo t.hi (max a t.lo) (min b t.hi)
+  have e5 : max (max a t.lo) t.lo = max a t.lo := by omega
+  have e6 : min (min b t.hi) t.hi = min b t.hi := by omega
+  rw [e1, e2, e3, e4, e5, e6]
+  have hf : t.es.filter (ov (max a t.lo) (min b t.hi)) = t.es.filter (ov a b) := by
+    apply List.filter_congr
+    intro iv hiv
+    have := hwf.pos iv hiv; have := hwf.inLo iv hiv; have := hwf.inHi iv hiv
+    simp only [ov, decide_eq_decide]
+    omega
+  rw [hf]
+
+/-- **shrinking, ANY region `a < b`** (truncate / categorical): the call succeeds, the result is well-formed, keeps name
+and span start, and the span end decreases by exactly the length of the part of the region inside the span -/
+theorem erase_shrink_any (t : ITier Int) (hwf : t.WF) (a b : Int) (hab : a < b) (mode : EraseMode) (hm : mode ≠ .error) :
+    ∃ t', t.eraseRegion a b mode true = .ok t' ∧ t'.WF ∧ t'.name = t.name ∧ t'.lo = t.lo ∧
+      t'.hi = t.hi - max 0 (min b t.hi - max a t.lo) := by
+  by_cases hne : max a t.lo < min b t.hi
+  · obtain ⟨_, t', _, e1, e2, e3, e4, e5, _⟩ :=
+      erase_shrink t hwf (max a t.lo) (min b t.hi) hne (by omega) (by omega) mode hm
+    refine ⟨t', ?_, e2, e3, e4, ?_⟩
+    · rw [erase_shrink_clip t hwf a b hab mode hne]; exact e1
+    · rw [e5]; omega
+  · exact ⟨t, erase_shrink_outside t hwf a b hab mode (by omega), hwf, rfl, rfl, by omega⟩
+
+/-- 'error' mode when nothing overlaps the region: the call does what 'truncate' does (nothing to delete; when shrinking,
+the later entries move) -/
+theorem erase_error_mode_clear (t : ITier Int) (hwf : t.WF) (a b : Int) (hab : a < b) (sh : Bool)
+    (hno : ∀ iv ∈ t.es, ¬ (iv.s < b ∧ a < iv.e)) :
+    t.eraseRegion a b .error sh = t.eraseRegion a b .truncate sh := by
+  rw [erase_unfold_clip t hwf a b hab .error sh, erase_unfold_clip t hwf a b hab .truncate sh]
+  have hf : t.es.filter (ov a b) = [] := by
+    apply List.filter_eq_nil_iff.2
+    intro iv hiv; have := hno iv hiv; simp [ov]; omega
+  simp only [hf, eraseCore, List.head?_nil]
+
+/-- **every mode, every region, shrinking or not**: whatever `eraseRegion` returns for a well-formed tier is well-formed
+(since fix A28 also for regions sticking out of the span) -/
+theorem erase_wf_any (t : ITier Int) (hwf : t.WF) (a b : Int) (m : EraseMode) (sh : Bool) (t' : ITier Int)
+    (h : t.eraseRegion a b m sh = .ok t') : t'.WF := by
+  by_cases hab : a < b
+  · have key : ∀ m', m' ≠ .error → t.eraseRegion a b m' sh = .ok t' → t'.WF := by
+      intro m' hm' h'
+      cases sh with
+      | false =>
+        obtain ⟨t'', e, w⟩ := erase_noshrink t hwf a b hab m' hm'
+        rw [h'] at e; cases e; exact w.wf
+      | true =>
+        obtain ⟨t'', e, w, _⟩ := erase_shrink_any t hwf a b hab m' hm'
+        rw [h'] at e; cases e; exact w
+    by_cases hm : m = .error
+    · subst hm
+      by_cases hov : ∃ iv ∈ t.es, iv.s < b ∧ a < iv.e
+      · rw [(erase_error_mode t hwf a b hab sh).1 hov] at h; cases h
+      · rw [erase_error_mode_clear t hwf a b hab sh (fun iv hiv ho => hov ⟨iv, hiv, ho⟩)] at h
+        exact key .truncate (by decide) h
+    · exact key m hm h
+  · rw [erase_rejects t a b m sh (by omega)] at h; cases h
 
 /-! ## layer R: the repaired shift `a + (x - b)` cannot create overlap under any monotone rounding -/
 
